@@ -139,14 +139,15 @@ func (c *context) SendMsg(m *protocol.Message) error {
 	c.backtrace = nil
 	c.recvPipe = nil
 	bestEffort := c.bestEffort
+	sendExpire := c.sendExpire
 	tq := nilQ
 	cq := c.closeQ
 	s.Unlock()
 
 	if bestEffort {
 		tq = closedQ
-	} else if c.sendExpire > 0 {
-		tq = time.After(c.sendExpire)
+	} else if sendExpire > 0 {
+		tq = time.After(sendExpire)
 	}
 
 	m.Header = bt
@@ -260,10 +261,14 @@ outer:
 			break
 		}
 
+		s.Lock()
+		ttl := s.ttl
+		s.Unlock()
+
 		// Move backtrace from body to header.
 		hops := 0
 		for {
-			if hops >= s.ttl {
+			if hops >= ttl {
 				m.Free() // ErrTooManyHops
 				continue outer
 			}
@@ -353,10 +358,14 @@ func (*socket) Info() protocol.Info {
 
 func (s *socket) AddPipe(pp protocol.Pipe) error {
 
+	s.Lock()
+	sendQLen := s.sendQLen
+	s.Unlock()
+
 	p := &pipe{
 		p:      pp,
 		s:      s,
-		sendQ:  make(chan *protocol.Message, s.sendQLen),
+		sendQ:  make(chan *protocol.Message, sendQLen),
 		closeQ: make(chan struct{}),
 	}
 	pp.SetPrivate(p)
